@@ -858,7 +858,9 @@ def _check_geo_complex(spec, ctx, B, area, n_interfaces):
         if style == "dict_geo":
             ctx.sut(assemble.assemble, assemblers.MassAssembler2D, patches[0][0], args=adict, geo=patches[0][1],
                     what="assemble(args=dict, geo=...)")
-            ctx.require("args_dict_history", "geo" in adict, "assemble() no longer stores its keyword arguments in the args dict")
+            # (whether assemble() writes its keywords into the caller's dict is not part of any property: if it does, the
+            # dict now carries the geometry of patch 0, which assemble_system must not use for the other patches)
+            ctx.flag("args_dict_carries_geo" if "geo" in adict else "args_dict_untouched")
         A, b = ctx.sut(MP.assemble_system, assemblers.MassAssembler2D, assemblers.L2FunctionalAssemblerPhys2D, args=adict,
                        what="assemble_system(args=dict)")
     ctx.flag("inputs_" + style)
